@@ -24,7 +24,7 @@ from . import c01, c02
 def with_registries(case, refschema, rs, ss, own):
     """validator for the referenced form; `own`: registries bound to the validator instead of the global ones"""
     real.clear_global_state()
-    cfg = copy.deepcopy(case.get('cfg', {}))
+    cfg = copy.deepcopy(case.get('refcfg', case.get('cfg', {})))
     if own:
         rr, sr = RulesSetRegistry(), SchemaRegistry()
         for k, v in rs.items():
@@ -54,11 +54,18 @@ def one(ctx, drv, i, prof, case):
     if cases.accepted(case) is not True:
         return
     refschema, rs, ss, applied = rewrite.to_references(rng, case['schema'], p=0.5)
+    au = case.get('cfg', {}).get('allow_unknown')
+    if isinstance(au, dict) and au and rng.random() < 0.6:
+        # the validator option allow_unknown given by name as well
+        case = dict(case, refcfg=dict(case['cfg'], allow_unknown='au_cfg'))
+        rs = dict(rs, au_cfg=copy.deepcopy(au))
+        applied = applied + [('rules', 'allow_unknown option')]
     if not applied:
         ctx.dist('skipped', 'no reference-able position')
         return
-    jcase = dict(real.enc_case(case), referenced=codec.enc_val(refschema), rules_sets=codec.enc_val(rs),
-                 schemas=codec.enc_val(ss))
+    jcase = dict(real.enc_case({k: v for k, v in case.items() if k != 'refcfg'}), referenced=codec.enc_val(refschema),
+                 rules_sets=codec.enc_val(rs), schemas=codec.enc_val(ss),
+                 refcfg=codec.enc_val(case['refcfg']) if 'refcfg' in case else None)
     real.clear_global_state()
     inline = {n: outcome(real.make_validator(case), case, n) for n in (False, True)}
     for own in (False, True):
@@ -83,6 +90,8 @@ def one(ctx, drv, i, prof, case):
                 return
     # ports: the model with the registries in its environment, against the real code with module-level registries
     rcase = dict(case, schema=refschema, rules_sets=rs, schemas=ss)
+    if 'refcfg' in rcase:
+        rcase['cfg'] = rcase.pop('refcfg')
     v = with_registries(case, refschema, rs, ss, False)
     # registries expand definitions when they are added: the model gets what the registries hold
     rcase['rules_sets'] = dict(rules_set_registry.all())
@@ -123,7 +132,48 @@ def recursive(ctx, drv):
     schema_registry.add('tree', {'v': {'type': 'integer'}, 'kids': {'type': 'list', 'schema': {'type': 'dict', 'schema': 'tree'}}})
     rules_set_registry.add('nest', {'type': 'dict', 'valuesrules': 'nest'})
     rules_set_registry.add('lst', {'anyof': [{'type': 'integer'}, {'type': 'list', 'schema': 'lst'}]})
+    # a definition that refers to itself from two positions, mutual recursion, one name used at two positions
+    schema_registry.add('node', {'v': {'type': 'integer'}, 'left': {'type': 'dict', 'schema': 'node'},
+                                 'right': {'type': 'dict', 'schema': 'node'}})
+    schema_registry.add('ping', {'v': {'type': 'integer'}, 'next': {'type': 'dict', 'schema': 'pong'}})
+    schema_registry.add('pong', {'w': {'type': 'string'}, 'next': {'type': 'dict', 'schema': 'ping'},
+                                 'other': {'type': 'dict', 'schema': 'ping'}})
+    rules_set_registry.add('pair', {'type': 'dict', 'keysrules': {'type': 'string'}, 'valuesrules': 'pair', 'allow_unknown': 'pair'})
     try:
+        more = [('node', 'node', {'v': 1, 'left': {'v': 2, 'left': {'v': 3}, 'right': {'v': 'x'}}, 'right': {'v': 4}}, False),
+                ('node', {'a': {'type': 'dict', 'schema': 'node'}, 'b': {'type': 'dict', 'schema': 'node'}},
+                 {'a': {'v': 1, 'right': {'v': 2}}, 'b': {'v': 3}}, True),
+                ('ping', 'ping', {'v': 1, 'next': {'w': 'a', 'next': {'v': 2}, 'other': {'v': 3, 'next': {'w': 4}}}}, False),
+                ('pair', {'a': 'pair', 'b': 'pair'}, {'a': {'k': {'k': {}}}, 'b': {'x': {}, 'y': {'z': {}}}}, True)]
+        for name, sch, dd, want in more:
+            try:
+                v = Validator(copy.deepcopy(sch) if isinstance(sch, dict) else sch)
+                r = v.validate(copy.deepcopy(dd))
+                if r != want:
+                    ctx.fail('C14 oracle: recursive definition %r gives %s, the unrolled definition gives %s' % (name, r, want),
+                             {'schema': repr(sch), 'doc': repr(dd)})
+            except RecursionError:
+                ctx.fail('C14 oracle: accepting / applying the recursive definition %r does not terminate' % name,
+                         {'schema': repr(sch), 'doc': repr(dd)})
+                continue
+            except Exception as e:
+                ctx.fail('C14 oracle: recursive definition %r raised %s' % (name, type(e).__name__), {'schema': repr(sch), 'doc': repr(dd)})
+                continue
+            case = {'schema': sch if isinstance(sch, dict) else dict(schema_registry.get(sch)), 'doc': dd, 'cfg': {},
+                    'rules_sets': dict(rules_set_registry.all()), 'schemas': dict(schema_registry.all())}
+            rep = ports.model_validate0(drv, case)
+            if rep == 'fuel' or 'raised' in rep:
+                ctx.port_mismatch('validate0', {'doc': repr(dd)}, repr(rep)[:200], 'ok', 'recursive definition in the model')
+            elif codec.canon_jerrs(rep['ok'], 1) != codec.canon_errs(v._errors, 1):
+                ctx.port_mismatch('validate0', {'doc': repr(dd), 'schema': repr(sch)}, repr(codec.canon_jerrs(rep['ok'], 1))[:600],
+                                  repr(codec.canon_errs(v._errors, 1))[:600], 'errors differ on a recursive definition')
+            req = {'port': 'accept', 'schema': codec.enc_val(case['schema']),
+                   'env': {'rulesSets': codec.enc_val(case['rules_sets']), 'schemas': codec.enc_val(case['schemas'])}}
+            rep = drv.ask(req)
+            if rep == 'schema_error' or 'accepted' not in rep:
+                ctx.port_mismatch('accept', {'schema': repr(sch)}, repr(rep)[:200], 'accepted', 'the model rejects a recursive definition')
+            ctx.dist('recursive', name)
+
         for depth in range(0, 7):
             doc = {'v': depth}
             cur = doc
